@@ -50,6 +50,7 @@ def run(tier, res, is_known):
     ]
     plan = [(fee, i) for fee in fees for i in range(len(INITIALS))]
     if tier == 'quick':
+        plan = [(f, i) for f, i in plan if not (f[0] == 'pct' and i == 1)]      # init 2 extends init 1
         plan.append((('pct', '0.00004', '0'), 3))      # commissions below half a cent (short / negative-cash state)
     for fee, i in plan:
         for init in [INITIALS[i]]:
